@@ -75,7 +75,10 @@ namespace mon
    struct foreign : std::runtime_error { int serial; explicit foreign( int s ) : std::runtime_error( "foreign exception from an action" ), serial( s ) {} };
    struct alien { int serial; };   // not derived from std::exception
 
-   enum rflags : unsigned { F_ACT = 1, F_REQUIRED = 2, F_LOOKAHEAD = 4, F_MUSTLIKE = 8, F_ENABLED = 16, F_HAS_UNWIND = 32, F_ENABLE_RULE = 64, F_DISABLE_RULE = 128, F_CFAM_B = 256, F_TRY = 512 };
+   template< template< typename... > class Action, typename = void > struct afam_of { static constexpr int v = 0; };
+   template< template< typename... > class Action > struct afam_of< Action, std::void_t< decltype( Action< void >::family ) > > { static constexpr int v = Action< void >::family; };
+
+   enum rflags : unsigned { F_AFAM_B = 1024, F_ACT = 1, F_REQUIRED = 2, F_LOOKAHEAD = 4, F_MUSTLIKE = 8, F_ENABLED = 16, F_HAS_UNWIND = 32, F_ENABLE_RULE = 64, F_DISABLE_RULE = 128, F_CFAM_B = 256, F_TRY = 512 };
 
    void on_enter( std::string_view name, std::string_view rule_t_name, int vid, unsigned flags, const void* input, const snap& s, const char* in_end );
    void on_leave( const snap& s, int result ) noexcept;   // result: 1 true, 0 false, 2 exception
@@ -119,6 +122,11 @@ namespace mon
       {
          on_state( 0, N, serial, in.current(), first_serial( outer... ) );
       }
+      st()
+         : state_base( N, next_state_serial() )
+      {
+         on_state( 0, N, serial, nullptr, -2 );   // default-constructed (change_states): no input, no outer states
+      }
       st( const st& ) = delete;
       template< typename In, typename... Outer >
       void success( const In& in, Outer&&... outer )
@@ -129,11 +137,12 @@ namespace mon
    };
 
    // ------------------------------------------------------------------ actions
-   template< int Kind, int Vid, int Fam > struct act_impl {};
+   template< int Kind, int Vid, int Fam > struct act_impl { static constexpr int family = Fam; };
 
    template< int Vid, int Fam >
    struct act_impl< ref::A_APPLY, Vid, Fam >
    {
+      static constexpr int family = Fam;
       template< typename AI, typename... S >
       static void apply( const AI& in, S&&... st )
       {
@@ -144,6 +153,7 @@ namespace mon
    template< int Vid, int Fam >
    struct act_impl< ref::A_APPLY0, Vid, Fam >
    {
+      static constexpr int family = Fam;
       template< typename... S >
       static void apply0( S&&... st )
       {
@@ -153,6 +163,7 @@ namespace mon
    template< int Vid, int Fam >
    struct act_impl< ref::A_VETO, Vid, Fam >
    {
+      static constexpr int family = Fam;
       template< typename AI, typename... S >
       static bool apply( const AI& in, S&&... st )
       {
@@ -163,6 +174,7 @@ namespace mon
    template< int Vid, int Fam >
    struct act_impl< ref::A_VETO0, Vid, Fam >
    {
+      static constexpr int family = Fam;
       template< typename... S >
       static bool apply0( S&&... st )
       {
@@ -172,6 +184,7 @@ namespace mon
    template< int Vid, int Fam >
    struct act_impl< ref::A_THROW, Vid, Fam >
    {
+      static constexpr int family = Fam;
       template< typename AI, typename... S >
       static void apply( const AI& in, S&&... st )
       {
@@ -182,6 +195,7 @@ namespace mon
    template< int Vid, int Fam >
    struct act_impl< ref::A_THROW_ALIEN, Vid, Fam >
    {
+      static constexpr int family = Fam;
       template< typename AI, typename... S >
       static void apply( const AI& in, S&&... st )
       {
@@ -281,7 +295,7 @@ namespace mon
       [[nodiscard]] static bool match( In& in, S&&... st )
       {
          using RT = typename rule_t_of< Rule >::type;
-         constexpr unsigned flags = ( A == pegtl::apply_mode::action ? F_ACT : 0u ) | ( M == pegtl::rewind_mode::required ? F_REQUIRED : 0u ) | ( is_lookahead< RT > ? F_LOOKAHEAD : 0u ) | ( is_mustlike< RT > ? F_MUSTLIKE : 0u ) | ( Control< Rule >::enable ? F_ENABLED : 0u ) | ( WithUnwind ? F_HAS_UNWIND : 0u ) | ( is_enable_rule< RT > ? F_ENABLE_RULE : 0u ) | ( is_disable_rule< RT > ? F_DISABLE_RULE : 0u ) | ( CFam ? F_CFAM_B : 0u ) | ( is_try< RT > ? F_TRY : 0u );
+         constexpr unsigned flags = ( A == pegtl::apply_mode::action ? F_ACT : 0u ) | ( M == pegtl::rewind_mode::required ? F_REQUIRED : 0u ) | ( is_lookahead< RT > ? F_LOOKAHEAD : 0u ) | ( is_mustlike< RT > ? F_MUSTLIKE : 0u ) | ( Control< Rule >::enable ? F_ENABLED : 0u ) | ( WithUnwind ? F_HAS_UNWIND : 0u ) | ( is_enable_rule< RT > ? F_ENABLE_RULE : 0u ) | ( is_disable_rule< RT > ? F_DISABLE_RULE : 0u ) | ( CFam ? F_CFAM_B : 0u ) | ( is_try< RT > ? F_TRY : 0u ) | ( afam_of< Action >::v ? F_AFAM_B : 0u );
          on_enter( name_of< Rule >, name_of< RT >, rid< Rule >::v, flags, &in, mk( in ), window_end( in ) );
          leave_guard g{ &in, +[]( const void* p ) noexcept { return mk( *static_cast< const In* >( p ) ); } };
          const bool r = pegtl::normal< Rule >::template match< A, M, Action, Control >( in, st... );
